@@ -135,6 +135,10 @@ def main(prop, tier, replay=None):
                             fails_other[t] = fails_other.get(t, 0) + 1
                 CC.run_sessions(drv, rng, info["tables"]["defender"], cfail11, coord_stats, 50 if quick else 500, 40,
                                 {"burst": 0.1, "leave": 0.05, "bad": 0.02, "early_reset": 0.15, "roles": ["Attacker", "Defender", "Defender"]})
+                # wildcard start positions under re-labelling: what 'all_local' resolves to must exist in every episode
+                CC.run_sessions(drv, rng, info["tables"]["defender"], cfail11, coord_stats, 16 if quick else 200, 30,
+                                {"burst": 0.0, "leave": 0.03, "bad": 0.0, "early_reset": 0.25, "roles": ["Defender", "Attacker"],
+                                 "force_env": {"use_dynamic_addresses": True}, "defender_start": ["all_local"]})
             if prop == "C12" and info.get("tables"):
                 # coordinator level: nothing an agent holds (view, counters, status, reward beyond the documented
                 # barrier outcome) may change because ANOTHER connection sent something
